@@ -225,7 +225,10 @@ class Fn:
         if self._defs is not None:
             return self._defs
         d = {}
+        live = set(self.live_blocks())
         for bi, b in enumerate(self.blocks):
+            if bi not in live:
+                continue
             for si, s in enumerate(b["st"]):
                 if s[0] == "a":
                     p = s[1]
@@ -254,6 +257,18 @@ class Fn:
                             mb.add(pl_local(p))
             self._mutb = mb
         return self._mutb
+
+    def is_stable_param(self, l):
+        """A parameter whose own value is never reassigned (writes *through* it, e.g. `*p = v` or `(*p).f = v`,
+        do not change the parameter itself)."""
+        for bi, si, kind, payload in self.defs().get(l, []):
+            if kind in ("assign", "call"):
+                return False
+            place = payload[1] if kind == "partial" and isinstance(payload, list) else (payload.get("dest") if isinstance(payload, dict) else None)
+            proj = pl_proj(place) if place is not None else []
+            if not proj or proj[0][0] != "deref":
+                return False
+        return l not in self.mut_borrowed()
 
     def unique_def(self, local):
         if local in self.mut_borrowed():
@@ -312,10 +327,8 @@ class Fn:
         return base
 
     def sym_local(self, l, depth=12):
-        if 1 <= l <= self.argc:
-            # parameters may be reassigned, but that is rare; treat as param if never assigned
-            if not self.defs().get(l):
-                return ("param", l, self.local_name(l))
+        if 1 <= l <= self.argc and self.is_stable_param(l):
+            return ("param", l, self.local_name(l))
         if depth <= 0:
             return ("local", l)
         ud = self.unique_def(l)
@@ -383,7 +396,7 @@ class Fn:
         for e in proj:
             if e[0] == "index":
                 self._leaf_local(e[1], depth - 1, pos, out)
-        is_param = (1 <= l <= self.argc and not self.defs().get(l))
+        is_param = (1 <= l <= self.argc and self.is_stable_param(l))
         ud = None if is_param else self.unique_def(l)
         if proj:
             out.append((self.sym_place(p, depth), pos))
@@ -434,6 +447,10 @@ class Fn:
                 p = t["dest"]
                 if not isinstance(p, int) or self.unique_def(p) is None:
                     out.append(((bi, n), self.sym_place(p), "call-dest"))
+                refined = self._callee_mod_writes(bi, n, t)
+                if refined is not None:
+                    out.extend(refined)
+                    continue
                 for a in t["args"]:
                     ap = op_place(a)
                     if ap is None:
@@ -446,6 +463,29 @@ class Fn:
                     if ty.startswith("&mut") or ty.startswith("*mut") or "&mut " in ty[:40]:
                         out.append(((bi, n), self.sym_operand(a), "mutref-arg"))
         self._writes = out
+        return out
+
+    def _callee_mod_writes(self, bi, n, t):
+        """If the callee is a workspace function, translate its mod-set (which parts of its reference parameters it may
+        write) to this call site instead of assuming every `&mut` argument is clobbered.  None => unknown callee."""
+        prog = _PROGRAM[0]
+        if prog is None:
+            return None
+        g = prog.fns.get(t.get("f") or "")
+        if g is None or g is self:
+            return None
+        ms = mod_set(g)
+        if ms is None:
+            return None
+        out = []
+        for (pi, chain) in ms:
+            if pi - 1 >= len(t["args"]):
+                continue
+            base = self.sym_operand(t["args"][pi - 1])
+            sym = base
+            for fld in chain:
+                sym = ("field", sym, fld) if fld != "[]" else ("index", sym, ("const", 0, "usize"))
+            out.append(((bi, n), sym, "mutref-arg"))
         return out
 
     def in_loop(self, bb):
@@ -478,21 +518,28 @@ class Fn:
         return any(self.can_reach(s, dst) for s in self.succ(src))
 
     # -- iteration helpers
+    def live_blocks(self):
+        """Blocks reachable through normal (non-unwind) edges; cleanup blocks are excluded."""
+        if getattr(self, "_live", None) is None:
+            r = self.reachable()
+            self._live = [i for i in range(len(self.blocks)) if i in r and not self.blocks[i].get("cleanup")]
+        return self._live
+
     def calls(self):
-        for bi, b in enumerate(self.blocks):
-            t = b["term"]
+        for bi in self.live_blocks():
+            t = self.blocks[bi]["term"]
             if t["k"] in ("call", "tailcall"):
                 yield bi, t
 
     def asserts(self):
-        for bi, b in enumerate(self.blocks):
-            t = b["term"]
+        for bi in self.live_blocks():
+            t = self.blocks[bi]["term"]
             if t["k"] == "assert":
                 yield bi, t
 
     def statements(self):
-        for bi, b in enumerate(self.blocks):
-            for si, s in enumerate(b["st"]):
+        for bi in self.live_blocks():
+            for si, s in enumerate(self.blocks[bi]["st"]):
                 yield bi, si, s
 
 
@@ -568,3 +615,40 @@ def sym_walk(s):
                 for y in x:
                     if isinstance(y, tuple) and y and isinstance(y[0], str):
                         yield from sym_walk(y)
+
+
+_PROGRAM = [None]
+_MODSET = {}
+_MODSET_ACTIVE = set()
+
+
+def set_program(p):
+    _PROGRAM[0] = p
+    _MODSET.clear()
+
+
+def mod_set(g):
+    """[(param index, field chain)] of memory reachable from g's parameters that g may write (transitively through
+    workspace callees); None when unknown (recursion)."""
+    key = g.path
+    if key in _MODSET:
+        return _MODSET[key]
+    if key in _MODSET_ACTIVE:
+        return None
+    _MODSET_ACTIVE.add(key)
+    try:
+        from .guards import place_chain
+        out = set()
+        ok = True
+        for pos, wsym, how in g.writes():
+            pc = place_chain(wsym)
+            if pc is None:
+                continue
+            root, chain = pc
+            if root[0] == "param":
+                out.add((root[1], tuple(chain)))
+        res = sorted(out)
+    finally:
+        _MODSET_ACTIVE.discard(key)
+    _MODSET[key] = res
+    return res
